@@ -496,3 +496,60 @@ Proof.
       * unfold wh. cbn [first_ok]. destruct (is_single_or x); [discriminate Hfirst|reflexivity].
       * rewrite dx_and by (exact Hoks || reflexivity). rewrite Hval, <- Hsq. reflexivity.
 Qed.
+
+(* ---------- the whole chain ---------- *)
+Lemma evE_par1 v e : evE v [[FPar e]] = evE v e.
+Proof. rewrite evE_single, evT_single. reflexivity. Qed.
+
+Lemma dx_and_list v l : l <> [] -> dx v (XAnd l) = evE v (toE_list l).
+Proof.
+  intros Hne. unfold dx. rewrite toE_and. destruct l as [|e [|e2 r]]; [congruence|reflexivity|].
+  apply evE_par1.
+Qed.
+
+Lemma swap_first_id l : match l with x :: _ => is_single_or x = false | [] => True end -> swap_first l = l.
+Proof. destruct l as [|x r]; [reflexivity|]. intros H. unfold swap_first. cbn. rewrite H. reflexivity. Qed.
+
+(* MAIN (C02): for every chain in the domain, the WHERE gorm renders parses under SQL precedence
+   and means, for every row valuation, the property's logical combination of the units. *)
+Theorem chain_semantics v tbl cs exprs s :
+  calls_domx tbl cs = true -> neg_pairs_ok v (calls_pairs cs) ->
+  build_chain tbl cs = Some exprs -> spec_chain tbl cs = Some s ->
+  match exprs with e :: _ => is_single_or e = false | [] => True end ->   (* first call is not Or *)
+  exprs <> [] ->
+  ok_where exprs = true /\
+  forall E, parse (where_tokens exprs) = Some E -> evE v E = sev v s.
+Proof.
+  intros Hd Hn Hb Hs Hfirst Hne.
+  unfold spec_chain in Hs. rewrite chain_seq_mean in Hs.
+  destruct (mean_calls tbl cs) as [lm|] eqn:El; [|discriminate]. cbn [option_map] in Hs. inversion Hs; subst; clear Hs.
+  assert (HP : Forall (fun c => Punit v tbl (snd c)) cs) by (apply Forall_forall; intros c _; apply all_units).
+  destruct (chain_R v tbl cs [] exprs lm HP Hd Hn Hb El) as [new [Hnew HF]]. cbn [app] in Hnew. subst new.
+  assert (Hval : ok_list (swap_first (match exprs with [XAnd l] => l | _ => exprs end)) = true /\
+                 evE v (toE_list (swap_first (match exprs with [XAnd l] => l | _ => exprs end))) = sev v (prec_sem (seq_of lm))).
+  { destruct HF as [|x p r sq Hx HF']; [congruence|].
+    destruct Hx as [[Hokx [Hcx [Hsx Hdx]]] [Horx Hfx]].
+    destruct HF' as [|y q r' sq' Hy HF''].
+    - (* a single expression *)
+      assert (Hsem : dx v x = sev v (prec_sem [p])).
+      { rewrite Hdx. destruct p as [b s0]. rewrite sev_prec_sem. reflexivity. }
+      destruct x as [a na|w ts|w ts|l|l|l]; cbn [first_ok] in Hfx;
+        try (rewrite swap_first_id by exact Hfirst; split; [exact Hokx|exact Hsem]).
+      (* lone AndConditions: Where.Build unwraps it *)
+      destruct l as [|x0 l0]; [discriminate Hokx|].
+      rewrite swap_first_id by exact Hfx. rewrite okx_and in Hokx. split; [exact Hokx|].
+      rewrite <- dx_and_list by discriminate. exact Hsem.
+    - (* several expressions *)
+      assert (Hl : (match x :: y :: r' with [XAnd l] => l | _ => x :: y :: r' end) = x :: y :: r') by (destruct x; reflexivity).
+      rewrite Hl. rewrite swap_first_id by exact Hfirst.
+      assert (HFall : Forall2 (R' v) (x :: y :: r') (p :: q :: sq')).
+      { constructor; [repeat split; assumption|]. constructor; assumption. }
+      assert (Hoks : oksL (x :: y :: r') = true) by (eapply R'_oksL; exact HFall).
+      split; [exact Hoks|].
+      rewrite evE_toE_list by (apply oksL_allclosed, Hoks || discriminate).
+      destruct (val_list_R v _ _ (R'_R _ _ _ HFall) ltac:(discriminate)) as [b0 [s0 [r0 [Hsq Hv]]]].
+      rewrite Hv, <- Hsq. reflexivity. }
+  destruct Hval as [Hok Hev]. unfold ok_where, where_exprs_built. split; [exact Hok|].
+  intros E Hp. rewrite (where_parses exprs Hok) in Hp. inversion Hp; subst.
+  unfold toE_where, where_exprs_built. exact Hev.
+Qed.
